@@ -1,5 +1,5 @@
 (* Casts (truncateIntValue) and the platform's char signedness for character tokens. *)
-From CV Require Import Base.Bytes Lit.Defs Lit.Spec Lit.Platform Lit.Gen_Platforms Lit.CharTheorems.
+From CV Require Import Base.Bytes Lit.Defs Lit.Spec Lit.Platform Lit.TokenValue Lit.Gen_Platforms Lit.CharTheorems.
 Require Import Lia ZifyBool.
 Local Open Scope N_scope.
 
@@ -63,41 +63,54 @@ Proof.
   rewrite (char_loop_narrow body vs H _ 0 0 Hlen). reflexivity.
 Qed.
 
-(* one-character narrow literals: correct on every platform whose plain char is signed (what the
-   host's static_cast<char> computes), for C and C++ *)
-Theorem char_token_value_signed_platform p cpp sp v : c_char sp v -> p_sign p = 115 ->
+Lemma token_char_count_c_char sp v : c_char sp v -> token_char_count (39 :: sp ++ [39]) = Some 1.
+Proof.
+  intros H. unfold token_char_count. rewrite removelast_last.
+  inversion H as [c H1 H2 H3 H4 | e v' He]; subst.
+  - cbn [length escape_count_go]. destruct (N.eqb_spec v 92); [contradiction|]. reflexivity.
+  - inversion He; subst; vm_compute; reflexivity.
+Qed.
+
+(* one-character narrow literals have the value of the platform's plain char, in C and C++ files,
+   on every platform with 8-bit bytes and a definite char signedness *)
+Theorem char_token_value_platform p cpp sp v : c_char sp v -> p_char_bit p = 8 -> (p_sign p = 115 \/ p_sign p = 117) ->
   char_literal_to_ll (39 :: sp ++ [39]) = Some (sext_spec 8 v) /\
-  narrow_nbytes (39 :: sp ++ [39]) = Some 1 /\
+  token_char_count (39 :: sp ++ [39]) = Some 1 /\
   char_token_value p cpp 1 (sext_spec 8 v) = char_value_on p v.
 Proof.
-  intros Hc Hp.
+  intros Hc Hb Hp.
   assert (Hcs : c_chars (sp ++ []) [v]) by (constructor; [assumption | constructor]).
   rewrite app_nil_r in Hcs.
   split; [exact (narrow_char_literal sp [v] Hcs ltac:(discriminate))|].
-  split; [exact (narrow_nbytes_chars sp [v] Hcs)|].
+  split; [exact (token_char_count_c_char sp v Hc)|].
   pose proof (c_char_lt _ _ Hc) as Hv.
-  unfold char_token_value, char_value_on, sext_spec. change (2 ^ 8) with 256. change (2 ^ (8 - 1)) with 128.
-  rewrite (N.mod_small v 256) by assumption. rewrite Hp. cbn [N.eqb Pos.eqb]. reflexivity.
+  unfold char_token_value, char_value_on, sext_spec. rewrite Hb. change (2 ^ Z.of_N 8)%Z with 256%Z.
+  change (2 ^ 8) with 256. change (2 ^ (8 - 1)) with 128.
+  rewrite (N.mod_small v 256) by assumption. cbn [N.eqb Pos.eqb].
+  destruct Hp as [E|E]; rewrite E; cbn [N.eqb Pos.eqb andb].
+  - reflexivity.
+  - destruct (N.ltb_spec v 128) as [L|L].
+    + destruct (Z.ltb_spec (Z.of_N v) 0); [lia | reflexivity].
+    + destruct (Z.ltb_spec (Z.of_N v - Z.of_N 256) 0); lia.
 Qed.
 
-(* ... and also for bytes below 128 on any platform *)
-Theorem char_token_value_ascii p cpp v : v < 128 ->
-  char_token_value p cpp 1 (sext_spec 8 v) = char_value_on p v.
-Proof.
-  intros Hv. unfold char_token_value, char_value_on, sext_spec. change (2 ^ 8) with 256. change (2 ^ (8 - 1)) with 128.
-  rewrite (N.mod_small v 256) by lia.
-  destruct (N.ltb_spec v 128); [|lia]. destruct (p_sign p =? 117); reflexivity.
-Qed.
+(* the witness that failed before /repo c27b70b: '\xff' on arm32-wchar_t4 is now 255 *)
+Example char_token_xff_unsigned_platform :
+  char_token_value plat_arm32_wchar_t4 false 1 (-1) = char_value_on plat_arm32_wchar_t4 255.
+Proof. vm_compute. reflexivity. Qed.
+(* '\xff\xff' on avr8 (16-bit int) is -1 *)
+Example char_token_multichar_avr8 : char_token_value plat_avr8 false 2 65535 = (-1)%Z.
+Proof. vm_compute. reflexivity. Qed.
 
-(* ... but not for bytes >= 128 on a platform whose plain char is unsigned: the host's signed char
-   decides, in C and in C++ files. Witness: '\xff' on a platform
-   whose plain char is unsigned (every platforms/*.xml with <default-sign>unsigned) *)
-Theorem c_char_token_unsigned_platform_refuted :
-  exists p s z, In p Gen_platforms /\ p_sign p = 117 /\
-                char_literal_to_ll s = Some z /\ narrow_nbytes s = Some 1 /\
-                (forall cpp, char_token_value p cpp 1 z <> char_value_on p 255).
+(* a single octal escape not starting with 0 (or a hex escape with more than two digits) is counted as
+   several characters by Token::isCChar, so the platform adjustment is skipped: '\377' on a platform
+   whose plain char is unsigned is reported as -1, its value is 255 *)
+Theorem octal_escape_char_token_refuted :
+  exists p s z n, In p Gen_platforms /\ p_sign p = 117 /\
+                  char_literal_to_ll s = Some z /\ narrow_nbytes s = Some 1 /\ token_char_count s = Some n /\
+                  (forall cpp, char_token_value p cpp n z <> char_value_on p 255).
 Proof.
-  exists plat_arm32_wchar_t4, [39; 92; 120; 102; 102; 39], (-1)%Z.
+  exists plat_arm32_wchar_t4, [39; 92; 51; 55; 55; 39], (-1)%Z, 3.
   split; [vm_compute; tauto|]. split; [reflexivity|]. split; [vm_compute; reflexivity|].
-  split; [vm_compute; reflexivity|]. intros cpp. vm_compute. discriminate.
+  split; [vm_compute; reflexivity|]. split; [vm_compute; reflexivity|]. intros cpp. vm_compute. discriminate.
 Qed.
